@@ -116,6 +116,7 @@ def run(tier, seed):
     behaviour_scripts(v, thorough, rng, seed)
     scen = list({json.dumps(b["hist"]): b for b in four + eight + links}.values())
     scen.append({"hist": [["late_link", "", "", ""]], "adversarial": "late_link"})
+    scen.append({"hist": [["full_mailbox", "", "", ""]], "adversarial": "full_mailbox"})
     for i, s in enumerate(scen):
         s["id"] = i
     sp = os.path.join(lib.outdir(PID), "scenarios.ndjson")
@@ -131,6 +132,15 @@ def run(tier, seed):
         case = {"operations": s["hist"]}
         if "tool_error" in o:
             raise lib.ToolError("localproc runner: " + o["tool_error"])
+        if s.get("adversarial") == "full_mailbox":
+            if not (o["link_ok"] and o["monitor_ok"]) or o["queued_until_full"] == 0:
+                v.add_drift("back-pressure scenario could not be set up", {**case, "obs": o})
+            elif o["exit_notices"] != 1 or o["down_notices"] != 1 or not o["down_ref_matches"]:
+                v.violation("a live linked and monitoring process whose mailbox was full when its target terminated was not notified exactly once (exit notice and down notice with the monitor's reference)",
+                            {**case, "messages_queued_until_full": o["queued_until_full"], "exit_notices": o["exit_notices"], "down_notices": o["down_notices"], "reference_matches": o["down_ref_matches"]})
+            elif not o["target_gone"]:
+                v.violation("a terminated process still resolves after its watchers drained their mailboxes", {**case, "obs": o})
+            continue
         if s.get("adversarial") == "late_link":
             if o["notes"]:
                 v.add_drift("late-link schedule could not be forced: " + "; ".join(o["notes"]), case)
